@@ -21,7 +21,7 @@
 #include "vh.h"
 extern int __CPROVER_errno;
 static char g_path[8] = "ufs:/a";
-int IN_prefix, IN_cmode, IN_nprocs; _Bool IN_exists, IN_regular; int IN_unlink_errno, IN_trunc_errno;
+int IN_prefix, IN_cmode, IN_nprocs; _Bool IN_exists, IN_regular, IN_open_fails; int g_getinfo_calls, g_fclose_calls, g_fh_open; int IN_unlink_errno, IN_trunc_errno;
 int g_lstat_calls, g_unlink_calls, g_trunc_calls, g_open_calls, g_removed_before_open, g_open_amode; const char *g_lstat_name, *g_unlink_name, *g_trunc_name, *g_open_name; long long g_trunc_len;
 
 char *ncmpii_remove_file_system_type_prefix(const char *filename) { return (char *)filename + IN_prefix; }   /* trusted: own string function of utils.c */
@@ -53,15 +53,20 @@ int truncate(const char *name, off_t length)
 int MPI_File_open(MPI_Comm comm, const char *filename, int amode, MPI_Info info, MPI_File *fh)
 {
     g_open_calls++; g_open_name = filename; g_open_amode = amode; g_removed_before_open = g_unlink_calls + g_trunc_calls;
-    return MPI_ERR_OTHER;   /* instance: the create itself fails; ncmpio_create returns right after the phase under contract */
+    if (IN_open_fails) return MPI_ERR_OTHER;   /* instance A: the create itself fails; ncmpio_create returns right after the phase under contract */
+    *fh = (MPI_File)malloc(1); g_fh_open++;
+    return MPI_SUCCESS;
 }
+/* instance B: the file is created, the next MPI call fails - the function ends there too */
+int MPI_File_get_info(MPI_File fh, MPI_Info *info) { g_getinfo_calls++; return MPI_ERR_OTHER; }
+int MPI_File_close(MPI_File *fh) { g_fclose_calls++; g_fh_open--; free(*fh); *fh = MPI_FILE_NULL; return MPI_SUCCESS; }
 #define STRIPPED (g_path + IN_prefix)
 #define NOCLOBBER ((IN_cmode & NC_NOCLOBBER) != 0)
 #define BADMODE ((IN_cmode & (NC_DISKLESS | NC_MMAP)) != 0)
 
 int ncmpio_create(MPI_Comm comm, const char *path, int cmode, int ncid, MPI_Info user_info, void **ncpp)
-__CPROVER_requires(path == g_path && cmode == IN_cmode && (IN_prefix == 0 || IN_prefix == 4) && g_lstat_calls == 0 && g_unlink_calls == 0 && g_trunc_calls == 0 && g_open_calls == 0)
-__CPROVER_assigns(*ncpp, g_lstat_calls, g_unlink_calls, g_trunc_calls, g_open_calls, g_removed_before_open, g_open_amode, g_lstat_name, g_unlink_name, g_trunc_name, g_open_name, g_trunc_len, __CPROVER_errno)
+__CPROVER_requires(path == g_path && cmode == IN_cmode && (IN_prefix == 0 || IN_prefix == 4) && g_lstat_calls == 0 && g_unlink_calls == 0 && g_trunc_calls == 0 && g_open_calls == 0 && g_fh_open == 0)
+__CPROVER_assigns(*ncpp, g_lstat_calls, g_unlink_calls, g_trunc_calls, g_open_calls, g_removed_before_open, g_open_amode, g_lstat_name, g_unlink_name, g_trunc_name, g_open_name, g_trunc_len, __CPROVER_errno, g_getinfo_calls, g_fclose_calls, g_fh_open)
 __CPROVER_ensures(IMPLIES(BADMODE, __CPROVER_return_value == NC_EINVAL_CMODE && g_lstat_calls == 0 && g_open_calls == 0 && g_unlink_calls == 0 && g_trunc_calls == 0)) /*@unsupported_mode_touches_nothing*/
 __CPROVER_ensures(IMPLIES(!BADMODE, g_lstat_calls == 1 && g_lstat_name == STRIPPED)) /*@existence_probed_under_the_name_without_file_system_prefix*/
 __CPROVER_ensures(IMPLIES(!BADMODE && NOCLOBBER && IN_exists, __CPROVER_return_value == NC_EEXIST && g_open_calls == 0 && g_unlink_calls == 0 && g_trunc_calls == 0)) /*@noclobber_refuses_and_leaves_an_existing_file_alone*/
@@ -72,6 +77,7 @@ __CPROVER_ensures(IMPLIES(g_open_calls == 1, g_open_name == g_path && (g_open_am
 __CPROVER_ensures(IMPLIES(!BADMODE && !NOCLOBBER && IN_exists && ((IN_regular && IN_unlink_errno != 0 && IN_unlink_errno != ENOENT) || (!IN_regular && IN_trunc_errno != 0 && IN_trunc_errno != ENOENT)),
                           __CPROVER_return_value == NC_EFILE && g_open_calls == 0)) /*@C11_failed_removal_reported_nothing_created*/
 __CPROVER_ensures(__CPROVER_return_value != NC_NOERR && *ncpp == NULL) /*@no_file_object_without_a_file*/
+__CPROVER_ensures(g_fh_open == 0) /*@C17_no_file_handle_kept_by_a_failed_create*/
 ;
 
 void harness(void)
@@ -80,9 +86,9 @@ void harness(void)
     __CPROVER_assume((IN_prefix == 0 || IN_prefix == 4) && (IN_nprocs == 1 || IN_nprocs == 2));
     __CPROVER_assume(IN_unlink_errno == 0 || IN_unlink_errno == ENOENT || IN_unlink_errno == EACCES || IN_unlink_errno == EBUSY);
     __CPROVER_assume(IN_trunc_errno == 0 || IN_trunc_errno == ENOENT || IN_trunc_errno == EACCES);
-    g_lstat_calls = 0; g_unlink_calls = 0; g_trunc_calls = 0; g_open_calls = 0; errno = 0;
+    g_lstat_calls = 0; g_unlink_calls = 0; g_trunc_calls = 0; g_open_calls = 0; errno = 0; g_getinfo_calls = 0; g_fclose_calls = 0; g_fh_open = 0; IN_open_fails = nondet_bool();
     void *ncp = (void *)1;
     int r = ncmpio_create(MPI_COMM_WORLD, g_path, IN_cmode, 0, MPI_INFO_NULL, &ncp);
     CANARY(g_unlink_calls == 1 && IN_prefix == 4, "prefixed_name_unlinked"); CANARY(g_trunc_calls == 1, "truncated"); CANARY(r == NC_EEXIST, "exists_refused"); CANARY(r == NC_EFILE, "removal_failed");
-    CANARY(g_open_calls == 1 && g_unlink_calls == 0 && g_trunc_calls == 0, "fresh_create");
+    CANARY(g_open_calls == 1 && g_unlink_calls == 0 && g_trunc_calls == 0, "fresh_create"); CANARY(g_getinfo_calls == 1, "created_then_failed");
 }
